@@ -34,7 +34,9 @@ func AcceptHeaders(rng *rand.Rand, thorough bool) []string {
 			}
 		}
 	}
-	item := func() string { return acceptMedia[rng.Intn(len(acceptMedia))] + acceptParams[rng.Intn(len(acceptParams))] }
+	item := func() string {
+		return acceptMedia[rng.Intn(len(acceptMedia))] + acceptParams[rng.Intn(len(acceptParams))]
+	}
 	seps := []string{",", ", ", " , ", ",,", ",\t", " ,;, "}
 	n := 40
 	if thorough {
